@@ -75,6 +75,9 @@ pub fn run(seqs: &[Value], out: &mut dyn Write, scratch: &Path) -> Value {
                     "reopen" => {
                         let root = tree.root();
                         pager.sync().map_err(|e| e.to_string())?;
+                        // one handle per file at a time: park on a scratch file while the old handle drops
+                        let parked = Pager::open(&dir.join("parked.ndb")).map_err(|e| e.to_string())?;
+                        drop(std::mem::replace(&mut pager, parked));
                         pager = Pager::open(&path).map_err(|e| e.to_string())?;
                         tree = BTree::load(root);
                         Ok(json!("ok"))
